@@ -2,9 +2,12 @@ module google.golang.org/grpc/verif/harness
 
 go 1.25.0
 
-require google.golang.org/grpc v0.0.0
+require google.golang.org/grpc v1.82.0
 
 require (
+	github.com/cncf/xds/go v0.0.0-20260202195803-dba9d589def2 // indirect
+	github.com/envoyproxy/go-control-plane/envoy v1.39.0 // indirect
+	github.com/envoyproxy/protoc-gen-validate v1.3.3 // indirect
 	golang.org/x/net v0.58.0 // indirect
 	golang.org/x/sys v0.47.0 // indirect
 	golang.org/x/text v0.41.0 // indirect
